@@ -161,8 +161,22 @@ func rsIntrospect(r rs.ResourceServer, tok string) (*oidc.IntrospectionResponse,
 	return rs.Introspect[*oidc.IntrospectionResponse](ctxBG, r, tok)
 }
 
-func teExchange(te tokenexchange.TokenExchanger, subject string, requested oidc.TokenType) (*oidc.TokenExchangeResponse, error) {
-	return tokenexchange.ExchangeToken(ctxBG, te, subject, oidc.AccessTokenType, "", "", nil, nil, []string{"openid"}, requested)
+// teExchange exchanges a subject token. Opaque access tokens are never used as subject or actor: on this tree they
+// make the provider panic (defect D4 of C09/C15, op.GetTokenIDAndSubjectFromToken), which is not C20's business and
+// a recovered panic garbles the race detector's shadow stack of the goroutine.
+func teExchange(te tokenexchange.TokenExchanger, subject string, subjectType, requested oidc.TokenType) (*oidc.TokenExchangeResponse, error) {
+	return tokenexchange.ExchangeToken(ctxBG, te, subject, subjectType, "", "", nil, nil, []string{"openid"}, requested)
+}
+
+// subjectOf picks a subject token (and its type) from a token set.
+func subjectOf(t *tokset, jwtAccess bool, pick int) (string, oidc.TokenType) {
+	switch {
+	case jwtAccess && pick%3 == 0:
+		return t.access, oidc.AccessTokenType
+	case t.refresh != "" && pick%3 == 1:
+		return t.refresh, oidc.RefreshTokenType
+	}
+	return t.id, oidc.IDTokenType
 }
 
 func tsToken(ts profile.TokenSource) (*oauth2.Token, error) { return ts.TokenCtx(ctxBG) }
